@@ -159,6 +159,7 @@ structure DState where
   implicitAcc : List (Db × Oid) := []
   saved : Store := []
   sps : List Store := []          -- the store at each savepoint of the running transaction
+  hist : List Store := []         -- the store after earlier transactions (historical connections)
   lastW : WState := WState.init
   dbs : List Db := []
   missing : List Cls := []
@@ -293,6 +294,15 @@ def step (d : DState) (toks : List String) : DState × String :=
     let lenv : LEnv := { store := d.store, dbs := d.dbs, missing := d.missing }
     let (ls, lines) := lwalk lenv LState.init ks [] []
     (d, "dup=" ++ toString (dupCount ls) ++ " | " ++ joinWith " | " lines)
+  | ["histmark"] => ({ d with hist := d.hist ++ [d.store] }, "ok")
+  | ["lwalkat", k, keys] =>        -- what a historical connection as of mark `k` loads
+    match k.toNat?.bind (d.hist[·]?) with
+    | some st =>
+      let ks := if keys = "-" then [] else (splitC ',' keys).filterMap parseKey
+      let lenv : LEnv := { store := st, dbs := d.dbs, missing := d.missing }
+      let (ls, lines) := lwalk lenv LState.init ks [] []
+      (d, "dup=" ++ toString (dupCount ls) ++ " | " ++ joinWith " | " lines)
+    | none => (d, "bad-op")
   | _ => (d, "bad-op")
 
 end RefsDriver
